@@ -44,6 +44,11 @@ def run(tier, seed):
             adl = [0, 1, 15, 16, 17, 31, 32, 33, 48, 64][tag % 10]
             line = "sstream %s %s %s - - %s D %s D" % (api, hx(key), hx(hdr), streamfam.tok_push(rng, tag % 19, adl, tag), streamfam.tok_push(rng, 3, 16 * (tag % 4), 0))
             cases.append(Case(line, cls="tag-byte/" + api, expect=streamfam.expect_history(line), meta={"why": "stream message with tag byte 0x%02x and %d bytes of associated data" % (tag, adl)}))
+    # lock-step at the upper end of the length range (F16): libsodium accepts messages up to 64·(2³²−2) bytes, the ChaCha20 crate
+    # behind dryoc can encrypt 64 bytes less; since E16 dryoc answers Err there (before E16: a panic, caught by C04).  The libsodium
+    # column of `stream_huge push` is libsodium's messagebytes_max(), not a run.
+    for L in (64 * (2 ** 32 - 3) + 1, 64 * (2 ** 32 - 3) + 17, 64 * (2 ** 32 - 2), 64 * (2 ** 32 - 2) + 1):
+        cases.append(Case("stream_huge push %d" % L, cls="stream-huge/limit", meta={"no_spec": True, "why": "largest message lengths: dryoc vs libsodium's limit"}))
     lines = assign_ids(cases)
     impl = run_engine(runner, lines)
     model = run_engine(driver_path(), lines) if lean["build_ok"] else {}
